@@ -40,8 +40,6 @@ def gen_case(rng, tier, idx):
     gran = rng.choice([g for g in (8, 16, 32, 64) if g <= dw])
     gbits = (dw // gran).bit_length() - 1
     aw = rng.choice([0, 1, 2, 3, 4, 5, 6, 8, 10, 12])
-    if aw == 0 and gbits == 0:
-        aw = 1                           # aw=0 with one granule per word: known finding F4 (C19)
     feats = [f for f in ALL_FEATURES if rng.random() < 0.5]
     return {"aw": aw, "dw": dw, "gran": gran, "features": feats,
             "al": rng.choice([0, 0, 0, 1, 2, 3]), "nsubs": rng.choice([0, 1, 2, 3, 4, 5]),
